@@ -84,6 +84,12 @@ def gen_ops(tier):
     return ops, vshapes
 
 
+def _dispatch(job):
+    if job.get("mutarg"):
+        return _mutarg_job(job)
+    return _run_shard(job)
+
+
 def _run_shard(job):
     """Worker: full fan-out from a list of states.  job = dict(states=[(hist,args)], dims=[...], shapes=[...], pb_every=int)"""
     common.bind_repo()
@@ -233,6 +239,62 @@ def _run_shard(job):
     return stats, [v.to_json() for v in viols], samples
 
 
+
+def _mutarg_job(job):
+    """Symbolic axes over the CURRENT call's arguments: an argument object is mutated between
+    two checks made inside one jaxtyped call; every check must use the argument's value at the
+    time of the check.  All sequences of length 2 over (value of h.n, dim string, shape)."""
+    common.bind_repo()
+    from jaxtyping import Float, jaxtyped
+    from .. import adapter
+    from ..adapter import Duck
+    from ..refs import dims as rdims, shapes as rshapes
+
+    class H:
+        def __init__(self):
+            self.n = 0
+
+    dims = ["{h.n}", "{h.n}+1", "a {h.n}", "#{h.n}"]
+    shapes = [(1,), (2,), (3,), (4,), (2, 2), (2, 3)]
+    anns = {d: Float[Duck, d] for d in dims}
+    axes = {d: rdims.parse(d)[1] for d in dims}
+    steps = [(v, d, sh) for v in (1, 2, 3) for d in dims for sh in shapes]
+    viols, n = [], 0
+
+    @jaxtyped(typechecker=None)
+    def run_seq(h, seq):
+        out = []
+        ctx = ({}, {})
+        for v, d, sh in seq:
+            h.n = v
+            got = adapter.check(Duck(sh), anns[d])
+            exp, new, allowed = rshapes.step(ctx, axes[d], sh, {"h": h})
+            out.append((got, exp, allowed))
+            if got is True and exp is True:
+                ctx = new
+        return out
+
+    for i, s1 in enumerate(steps):
+        if i % job["n"] != job["k"]:
+            continue
+        for s2 in steps:
+            res = run_seq(H(), [s1, s2])
+            n += 2
+            for j, (got, exp, allowed) in enumerate(res):
+                if got not in allowed:
+                    viols.append(
+                        Violation(
+                            key=f"C01:mutable-argument:{[s1, s2][j][1]}",
+                            what=f"inside one jaxtyped call, steps (h.n, dims, shape) = {s1} then {s2}: step {j} answered {got!r}, reference {sorted(map(str, allowed))} (the symbolic axis must use the argument's value at the time of the check)",
+                            replay=dict(kind="mutarg", seq=[list(map(lambda x: list(x) if isinstance(x, tuple) else x, s1)), list(map(lambda x: list(x) if isinstance(x, tuple) else x, s2))]),
+                        ).to_json()
+                    )
+                    break
+        if len(viols) > 50:
+            break
+    return n, viols
+
+
 def explore_states(tier):
     """Phase 1 (serial): BFS over the state-changing sub-alphabet on the REAL
     implementation; returns {state_key: history}."""
@@ -321,9 +383,13 @@ def run(ctx):
             jobs.append(dict(states=[car_states[i] for i in idx], dims=car_dims, shapes=car_shapes, pb_every=16, variant=v))
     if ctx.thorough:
         jobs.append(dict(states=car_states[:6], dims=car_dims[::3], shapes=[sh for sh in car_shapes if len(sh) <= 2], pb_every=16, variant="tf"))
-    outs = common.pmap(_run_shard, jobs)
+    mjobs = [dict(mutarg=True, n=8, k=k) for k in range(8)]
+    outs_all = common.pmap(_dispatch, mjobs + jobs)
+    mouts, outs = outs_all[: len(mjobs)], outs_all[len(mjobs):]
     stats = common.merge_counts(o[0] for o in outs)
-    viols = [Violation(**v) for o in outs for v in o[1]]
+    viols = [Violation(**v) for o in outs for v in o[1]] + [Violation(**v) for o in mouts for v in o[1]]
+    stats["transitions"] += sum(o[0] for o in mouts)
+    mutarg_transitions = sum(o[0] for o in mouts)
     samples = [s for o in outs for s in o[2]][:5]
     # model-level sanity: reference (a) vs reference (b) on single-check constraints is done in C02.
     cov = dict(
@@ -344,6 +410,7 @@ def run(ctx):
         carrier_variants=variants + (["tf"] if ctx.thorough else []),
         carrier_dim_strings=len(car_dims),
         carrier_states=len(car_states),
+        mutable_argument_transitions=mutarg_transitions,
         verdict_true=stats["true"],
         verdict_false=stats["false"],
         verdict_annotation_error=stats["annot"],
@@ -365,6 +432,11 @@ def run(ctx):
 
 
 def replay(rep):
+    if rep.get("kind") == "mutarg":
+        n, v = _mutarg_job(dict(n=1, k=0))
+        want = [list(map(lambda x: tuple(x) if isinstance(x, list) else x, st)) for st in rep["seq"]]
+        mine = [x for x in v if x["replay"]["seq"] == rep["seq"]]
+        return dict(violations=[x["what"] for x in (mine or v)[:3]], violates=bool(mine or v))
     common.bind_repo()
     from jaxtyping import Float
     from .. import adapter
